@@ -24,11 +24,27 @@ def spec(fn):
     return fn
 
 
-def axiom(fn):
-    """Decorator: marks a boolean spec function whose universally quantified truth is
-    ASSUMED (listed in evidence).  Instantiated at matching ground terms."""
-    fn.__pyvc_axiom__ = True
-    return fn
+def axiom(trigger):
+    """Decorator: a boolean function whose universally quantified truth is ASSUMED
+    (listed in evidence, cross-checked by `vcheck axioms`).  It is instantiated at
+    every ground application of the spec function named `trigger` (same parameters)."""
+    def deco(fn):
+        fn.__pyvc_axiom__ = trigger
+        return fn
+    return deco
+
+
+def lemma_fn(trigger):
+    """Like @axiom, but PROVED: a lemma contract with the same name must be discharged
+    in the same run (checked by the driver)."""
+    def deco(fn):
+        fn.__pyvc_axiom__ = trigger
+        fn.__pyvc_lemma__ = True
+        return fn
+    return deco
+
+
+IDENTITY_FNS = {"float_bits": ("float", "int"), "float_from_bits": ("int", "float")}
 
 
 class SpecFn:
@@ -43,6 +59,8 @@ class SpecFn:
         dom = [_sort(t) for t in self.ptags]
         self.decl = z3.Function(f"{module.split('.')[-1]}.{name}", *dom, _sort(self.rtag))
         self.opaque = bool(getattr(pyfn, "__pyvc_opaque__", False))
+        self.axiom_trigger = getattr(pyfn, "__pyvc_axiom__", None)
+        self.is_lemma = bool(getattr(pyfn, "__pyvc_lemma__", False))
 
     def apply(self, args):
         """args: list of V -> V"""
@@ -72,7 +90,10 @@ def coerce(v, tag):
         return S.unbox(v.t, tag).t
     if v.ty == "bool" and tag == "int":
         return z3.If(v.t, z3.IntVal(1), z3.IntVal(0))
-    raise TypeError(f"spec arg type mismatch: have {v.ty}, want {tag}")
+    # kind mismatch (only reachable in dead branches of total evaluation): the accessor
+    # applied to a value of another kind is an unspecified value of the right sort
+    con, acc, _ = S.NATIVE[tag]
+    return acc(S.box(v))
 
 
 def _annname(a):
@@ -96,6 +117,8 @@ class SpecRegistry:
         self.by_decl = {}     # decl name -> SpecFn
         self.modules = {}     # python module name -> {fn name -> SpecFn}
         self.consts = {}      # module name -> {NAME -> python value}
+        self.axioms = {}      # trigger decl name -> [SpecFn]
+        self.idents = {}      # module name -> set of identity-function names
 
     def load_module(self, modname):
         if modname in self.modules:
@@ -110,7 +133,13 @@ class SpecRegistry:
         for st in tree.body:
             if isinstance(st, ast.FunctionDef):
                 pyfn = getattr(pymod, st.name)
-                if getattr(pyfn, "__pyvc_spec__", False) or getattr(pyfn, "__pyvc_axiom__", False):
+                if st.name in IDENTITY_FNS:
+                    self.idents.setdefault(modname, set()).add(st.name)
+                elif getattr(pyfn, "__pyvc_axiom__", None):
+                    sf = SpecFn(modname, st.name, st, pyfn)
+                    sf.pending_trigger = sf.axiom_trigger
+                    fns[st.name] = sf
+                elif getattr(pyfn, "__pyvc_spec__", False):
                     sf = SpecFn(modname, st.name, st, pyfn)
                     fns[st.name] = sf
                     self.by_decl[sf.decl.name()] = sf
@@ -131,6 +160,14 @@ class SpecRegistry:
                 for a in st.names:
                     imp[a.asname or a.name] = (a.name, None)
         self._imports[modname] = imp
+        # bind axioms to their trigger declarations
+        for sf in fns.values():
+            trig = getattr(sf, "pending_trigger", None)
+            if trig:
+                r = self.lookup(modname, trig)
+                if r is None or r[0] != "fn":
+                    raise ValueError(f"axiom {sf.name}: unknown trigger {trig}")
+                self.axioms.setdefault(r[1].decl.name(), []).append(sf)
         return fns
 
     def lookup(self, modname, name):
@@ -140,6 +177,8 @@ class SpecRegistry:
             return ("fn", fns[name])
         if name in self.consts[modname]:
             return ("const", self.consts[modname][name])
+        if name in self.idents.get(modname, ()):
+            return ("ident", name)
         imp = self._imports[modname].get(name)
         if imp:
             m, n = imp
